@@ -1,6 +1,6 @@
 (* Property C18 — theorems only. Each is closed by [exact] and followed by Print Assumptions.
 
-   Vocabulary (coq/C18/Persist.v): a [disk] gives each of the four files rope writes under .ropeproject at
+   Vocabulary (coq/C18/Persist.v): a [disk] gives each of the files rope writes under .ropeproject at
    close either no content or bytes; [save_steps ws] is the program-order list of opens, byte appends and
    closes of the writes [ws] performed by Project.close; [crash_state prog d0 d]: [d] is the disk after some
    prefix of some schedule of [prog] that buffering allows (each file sees its own steps in program order),
@@ -62,6 +62,34 @@ Theorem C18_objectdb_usable :
 Proof. exact objectdb_usable. Qed.
 Print Assumptions C18_objectdb_usable.
 
+(* The same for the third data file, "globalnames" of the pickle-based contrib.autoimport. *)
+Theorem C18_globalnames_usable :
+  forall (unpickle : bytes -> load) (catches : exn -> bool) (ws : list write) (d0 d : disk) (v0 : pval),
+    unpickle [] = Eof -> repaired catches ->
+    Forall (good_write unpickle) ws ->
+    (forall w, In w ws -> w_file w = Globalnames -> names_ok (w_val w) = true) ->
+    load_names (read_data unpickle catches d0 Globalnames) = OOk v0 -> names_ok v0 = true ->
+    crash_state (save_steps ws) d0 d ->
+    exists v, load_names (read_data unpickle catches d Globalnames) = OOk v /\ names_ok v = true
+              /\ (v = v0 \/ v = PDict [] \/ written Globalnames ws v).
+Proof. exact globalnames_usable. Qed.
+Print Assumptions C18_globalnames_usable.
+
+(* Any number of sessions: every save may be interrupted anywhere (or complete), the next one starts from the
+   disk that was left. Each data file still reads as the initial version, as no data, or as a complete version
+   written by one of the saves. *)
+Theorem C18_sessions_reader_total :
+  forall (unpickle : bytes -> load) (catches : exn -> bool),
+    unpickle [] = Eof -> catches ExEOF = true -> catches ExUnpickling = true ->
+    forall (d0 : disk) (W : list write) (d : disk) (f : dfile) (v0 : pval),
+      evolves unpickle d0 W d ->
+      read_data unpickle catches d0 f = Loaded v0 ->
+      read_data unpickle catches d f = Loaded v0
+      \/ read_data unpickle catches d f = Loaded PNone
+      \/ exists v, written f W v /\ read_data unpickle catches d f = Loaded v.
+Proof. exact sessions_reader_total. Qed.
+Print Assumptions C18_sessions_reader_total.
+
 (* The .json side files are written but never read: disks that agree on the two pickles open alike
    (and none of the theorems above constrains the side files' bytes or their state in [d0]). *)
 Theorem C18_json_side_file_irrelevant :
@@ -97,6 +125,29 @@ Proof.
                 (partial_write_content w np nj (run (save_steps ws1) d0))).
 Qed.
 Print Assumptions C18_every_byte_prefix_is_a_crash_state.
+
+(* The writer the tracer observes (per file: truncating open, writes of chunks, close, in program order): the
+   disk it produces when every write takes effect at once is the run of its translation into steps. The runner
+   checks that this translation IS save_steps, so the model's program is the traced program. *)
+Theorem C18_trace_simulation :
+  forall (t : list tev) (s : list step) (d : disk),
+    trace_steps t = Some s -> forall x, exec_trace t d x = run s d x.
+Proof. exact trace_simulation. Qed.
+Print Assumptions C18_trace_simulation.
+
+(* The states exact buffering can leave ([delays]: a byte is postponed past steps on other files only) lie
+   between: each is a crash state of the theorems (not too large to matter), and every byte prefix of the write
+   in progress is one of them (not too small). *)
+Theorem C18_buffered_crash_states_are_crash_states :
+  forall prog d0 d, buffered_crash_state prog d0 d -> crash_state prog d0 d.
+Proof. exact buffered_is_crash_state. Qed.
+Print Assumptions C18_buffered_crash_states_are_crash_states.
+
+Theorem C18_every_byte_prefix_is_a_buffered_crash_state :
+  forall (ws1 : list write) (w : write) (ws2 : list write) (np nj : nat) (d0 : disk),
+    buffered_crash_state (save_steps (ws1 ++ w :: ws2)) d0 (run (save_steps ws1 ++ partial_write w np nj) d0).
+Proof. exact every_prefix_is_buffered_crash_state. Qed.
+Print Assumptions C18_every_byte_prefix_is_a_buffered_crash_state.
 
 (* Buffering - a byte reaches the disk later than in program order, postponed past steps on other files
    but never past a step on its own file - only produces schedules: the theorems above cover it all. *)
@@ -149,6 +200,13 @@ Theorem C18_table_instance_laws :
 Proof. exact (fun tbl e H => conj (tbl_unpickle_empty tbl) (good_pickleb_sound tbl e H)). Qed.
 Print Assumptions C18_table_instance_laws.
 
+(* The fuel that makes DataToChange's model structurally recursive always suffices: on a loaded value of any
+   shape the history consumer yields a history or one of Python's exceptions, never the artefact ExFuel. *)
+Theorem C18_history_consumer_fuel_suffices :
+  forall v : pval, load_history (Loaded v) <> HRaised ExFuel.
+Proof. exact load_history_no_fuel. Qed.
+Print Assumptions C18_history_consumer_fuel_suffices.
+
 (* Non-vacuity *)
 Example C18_hypotheses_satisfiable :
   exists (unpickle : bytes -> load) (ws : list write) (d0 d : disk),
@@ -161,7 +219,7 @@ Proof. exact hypotheses_satisfiable. Qed.
 Print Assumptions C18_hypotheses_satisfiable.
 
 Example C18_history_roundtrip_example :
-  load_history (Loaded (history_write_val 1 [CMove (PStr [97]%N) (PStr [98]%N) (PBool false); ex_change] [ex_change]))
+  load_history (Loaded (history_write_val 1 [CMove (PStr [97]%N) (PStr [98]%N) false; ex_change] [ex_change]))
   = HOk [ex_change] [ex_change].
 Proof. exact history_roundtrip_example. Qed.
 Print Assumptions C18_history_roundtrip_example.
@@ -169,3 +227,33 @@ Print Assumptions C18_history_roundtrip_example.
 Example C18_files_ok_example : files_ok ex_files = true /\ load_files (Loaded ex_files) = OOk ex_files.
 Proof. exact files_ok_example. Qed.
 Print Assumptions C18_files_ok_example.
+
+Example C18_sessions_example :
+  evolves (tbl_unpickle wit_tbl) no_files (([] ++ [wit_write]) ++ [wit_write]) (run (save_steps [wit_write]) wit_disk)
+  /\ read_data (tbl_unpickle wit_tbl) catches_repaired (run (save_steps [wit_write]) wit_disk) History = Loaded wit_val.
+Proof. exact sessions_example. Qed.
+Print Assumptions C18_sessions_example.
+
+(* Outside the property's quantifier (no crash state holds a complete pickle of something else, by
+   C18_reader_total), recorded for the manifest: on a complete pickle of a foreign value the history consumer
+   raises TypeError / KeyError / IndexError / AttributeError depending on its shape, the dict consumers
+   (MemoryDB, AutoImport) take anything. *)
+Example C18_foreign_values_example :
+  load_history (Loaded (PInt 5)) = HRaised ExType
+  /\ load_history (Loaded (PDict [])) = HRaised ExKey
+  /\ load_history (Loaded (PStr [])) = HRaised ExIndex
+  /\ load_history (Loaded (PStr [97; 98]%N)) = HRaised ExAttribute
+  /\ load_history (Loaded (PDict [(PInt 0, PList []); (PBool true, PTuple [])])) = HOk [] []
+  /\ load_files (Loaded (PInt 5)) = OOk (PInt 5).
+Proof. exact foreign_values_example. Qed.
+Print Assumptions C18_foreign_values_example.
+
+Example C18_names_ok_example : names_ok ex_names = true /\ load_names (Loaded ex_names) = OOk ex_names.
+Proof. exact names_ok_example. Qed.
+Print Assumptions C18_names_ok_example.
+
+Example C18_trace_example :
+  trace_steps [TOpen (P History) true; TWrite (P History) [1; 2]%N; TClose (P History)]
+  = Some [OpenTrunc (P History); Append (P History) 1%N; Append (P History) 2%N; Close (P History)].
+Proof. exact trace_example. Qed.
+Print Assumptions C18_trace_example.
